@@ -38,6 +38,9 @@ def judge(case):
         fails.append(('preout-chars', d))
     d, lin, lout = tokrel.rel_clex_code(e)
     counts = []
+    if lin is not None and (case.origin or {}).get('kind') == 'mutant' and any(t[0] == 'other' and t[1] in ('"', "'") for t in lin):
+        # a mutant with an unterminated quote: the two lexers may segment the garbage differently and neither is "right"
+        d, lin = None, None
     if case.lang in corpus.CFAMILY:
         counts.append('clex_judged' if lin is not None else 'unlexable')
     if d:
@@ -66,7 +69,7 @@ _EX = {}
 
 def to_case(v):
     toks, lseed, cseed = v
-    src, r = layout.render(toks, random.Random(lseed), 'C')
+    src, r = layout.render(toks, random.Random(lseed), 'C', dict(bs_cmt=0.15))
     rng = random.Random(cseed)
     k = cseed % 5
     if k == 0:
@@ -75,6 +78,31 @@ def to_case(v):
         cfgd = registry.random_cfg(rng, CLASSES, (0.01, 0.03, 0.08, 0.2)[k - 1])
         family.apply_exclusions(cfgd, _EX)
     return family.Case(src.encode('utf-8'), 'C', cfgd, {'kind': 'generated', 'layout_seed': lseed, 'cfg_seed': cseed})
+
+
+def extreme_cfgs(ex, counter, quick):
+    """whole-family settings: every sp_ add/remove/force option at `remove` (the most fusion-prone configuration; with and without the
+    boolean spacing permissions) and at `force`; thorough adds every nl_ add/remove/force option at `remove` / `add`"""
+    opts = registry.ws_options()
+    sp = [o for o in opts if registry.is_iarf(o) and o['name'].startswith('sp_')]
+    nl = [o for o in opts if registry.is_iarf(o) and o['name'].startswith('nl_')]
+    spb = [o for o in opts if o['type'] == 'bool' and o['name'].startswith('sp_')]
+    out = []
+    d = {o['name']: 'remove' for o in sp}
+    out.append(dict(d))
+    d2 = dict(d)
+    d2.update({o['name']: 'true' for o in spb})
+    out.append(d2)
+    if not quick:
+        out.append({o['name']: 'force' for o in sp})
+        out.append({o['name']: 'remove' for o in nl})
+        out.append({o['name']: 'add' for o in nl})
+        d3 = {o['name']: 'remove' for o in sp}
+        d3.update({o['name']: 'remove' for o in nl})
+        out.append(d3)
+    for c in out:
+        family.apply_exclusions(c, ex, counter)
+    return out
 
 
 def iarf_ws_options():
@@ -97,6 +125,7 @@ def main(ctx):
     # (a) corpus x configs
     ncfg = 2 if quick else 24
     cfgs = [{}] + family.random_cfgs(core.subseed(ctx.seed, 'a'), ncfg, CLASSES, (0.01, 0.03, 0.08), ex, ctx.counts)
+    cfgs += extreme_cfgs(ex, ctx.counts, quick)
     for rel, lang in files:
         src = corpus.read(rel)
         for i, cd in enumerate(cfgs):
